@@ -110,6 +110,19 @@ def run(pid, tier):
             sc["listener"] = True
             sc["label"] += "-listener"
             scenarios.append(sc)
+        # the same group reached through other selection modes: every target named explicitly with --deps (the closure
+        # adds nothing), only the last target named with --deps (the closure pulls the members in), changed targets
+        for s, pos, how in ((3, "middle", "all_named"), (7, "first", "all_named"), (5, "middle", "last_named"), (4, "first", "changed")):
+            sc = runlib.barrier_scenario(s, pos, chk.seed)
+            paths = [t["path"] for t in sc["targets"]]
+            if how == "all_named":
+                sc["mode"], sc["named"] = "targets_deps", list(paths)
+            elif how == "last_named":
+                sc["mode"], sc["named"] = "targets_deps", [paths[-1]]
+            else:
+                sc["mode"], sc["edits"] = "changed", [p + "/src.txt" for p in paths]
+            sc["label"] += "-" + how
+            scenarios.append(sc)
         # members sharing one executable file (common command directory)
         for s, pos in ((2, "first"), (4, "middle"), (9, "last")) + (((17, "middle"), (33, "first")) if tier == "thorough" else ()):
             scenarios.append(runlib.barrier_scenario(s, pos, chk.seed, shared=True))
